@@ -158,9 +158,17 @@ def _model_job(job) -> List[Dict[str, Any]]:
             elif ev.kind == "dynamic-attr":
                 out.append(dict(rule="R14.4", verdict="UNDECIDED", module=m, function=fn, construct=norm_text(ev.node, 120), line=line,
                                 message=f"dynamic attribute access ({ev.data['how']}) in reachable code", detail={"entry": entry}))
-            elif ev.kind in ("nondet", "set-display"):
-                out.append(dict(rule="R14.3", verdict="VIOLATED" if ev.kind == "nondet" else "UNDECIDED", module=m, function=fn, construct=norm_text(ev.node, 120), line=line,
+            elif ev.kind == "nondet":
+                out.append(dict(rule="R14.3", verdict="VIOLATED", module=m, function=fn, construct=norm_text(ev.node, 120), line=line,
                                 message=f"non-deterministic source in reachable code ({ev.kind} {ev.data.get('qual', '')})", detail={"entry": entry}))
+            elif ev.kind == "set-iteration":
+                el = ev.data.get("elem")
+                from ..ai.values import Num as _Num, Bool as _Bool
+
+                numeric = isinstance(el, (_Num, _Bool))
+                out.append(dict(rule="R14.3", verdict="HOLDS" if numeric else "VIOLATED", module=m, function=fn, construct=norm_text(ev.node, 120), line=line,
+                                message="" if numeric else "the elements of a set of objects / strings are visited in the order of their hashes, which depends on object ids or addresses and on the process hash seed: "
+                                "whatever is accumulated in that order (a float sum, a first match) depends on them", detail={"entry": entry}))
         if op != "rate" and oc.returned:
             bp = bad_prov(_result_prov(I, oc.world.state, oc.result))
             if bp:
